@@ -16,13 +16,14 @@ var ghostKeys = map[string]string{
 	"$out":      "(Sq Bytes)",        // lines printed to stdout (fmt.Print*, color.*)
 	"$calls":    "(Array Int Int)",   // function value -> number of calls made through it
 	"$zw":       "(Array Int Bytes)", // zlib.Writer handle -> bytes written so far
+	"$sb":       "(Array Int Bytes)", // strings.Builder handle -> text built so far
 	"$iofail":   "Bool",              // some file-system modification (create, write, mkdir, remove, rename) has failed
 }
 
 // hidden state of library objects, console output and call counters: never part of a frame obligation; a caller
 // loses what it knew about them whenever the callee may (syntactically, transitively) touch them
 func isHiddenGhost(k string) bool {
-	return k == "$out" || k == "$rdpos" || k == "$hashdata" || k == "$screst" || k == "$sctok" || k == "$calls" || k == "$iofail" || k == "$zw"
+	return k == "$out" || k == "$rdpos" || k == "$hashdata" || k == "$screst" || k == "$sctok" || k == "$calls" || k == "$iofail" || k == "$zw" || k == "$sb"
 }
 
 func isGhostKey(k string) bool { _, ok := ghostKeys[k]; return ok }
@@ -77,6 +78,11 @@ var libEffects = map[string][]string{
 	"(*bufio.Scanner).Scan":         {"$screst", "$sctok"},
 	"compress/zlib.NewWriter":       {"$zw"},
 	"(*compress/zlib.Writer).Write": {"$zw"},
+	"(*strings.Builder).WriteString": {"$sb"},
+	"(*strings.Builder).WriteByte":   {"$sb"},
+	"(*strings.Builder).Write":       {"$sb"},
+	"(*strings.Builder).Reset":       {"$sb"},
+	"fmt.Fprintf":                    {"$sb"},
 	"fmt.Println":                   {"$out"},
 	"fmt.Printf":                    {"$out"},
 	"fmt.Print":                     {"$out"},
